@@ -457,6 +457,6 @@ func genOutHistCase(t *rapid.T) EvalCase {
 	return c
 }
 
-var propOutHist = h.NewProp("TestPropOutputHistory", h.Budget{Quick: 2500, Thorough: 60000}, genOutHistCase, runEval)
+var propOutHist = h.NewProp("TestPropOutputHistory", h.Budget{Quick: 2000, Thorough: 40000}, genOutHistCase, runEval)
 
 func TestPropOutputHistory(t *testing.T) { propOutHist.Check(t) }
